@@ -72,16 +72,17 @@ def run_items(items, job):
             R.count("fingerprints_compared")
             R.distinct.add(PL.mix(key, name) & 0xFFFFFFFFFFFF)
             try:
-                a = fingerprint.fingerprint(doc, active)
-                b = fingerprint.fingerprint(after, active)
+                loose = "\t" in doc
+                a = fingerprint.fingerprint(doc, active, loose_code_ws=loose)
+                b = fingerprint.fingerprint(after, active, loose_code_ws=loose)
             except Exception as e:  # the oracle itself failed: abstain
                 R.skip("oracle-error:" + type(e).__name__)
                 continue
             d = fingerprint.first_difference(a, b)
             # letters and digits can never legitimately appear, disappear or be duplicated (markers may
             # move between text and markup, so they are not counted here)
-            ca = collections.Counter(ch for ch in doc if ch.isalnum())
-            cb = collections.Counter(ch for ch in after if ch.isalnum())
+            ca = fingerprint.alnum_chars(a)
+            cb = fingerprint.alnum_chars(b)
             if ca - cb:
                 v.add(f"{name}:letters-or-digits-lost")
             if cb - ca:
